@@ -300,6 +300,16 @@ class ImapSession:
                 r = self._salvage(parts)
                 if r is None:
                     continue
+            code = getattr(r, "code", None)
+            if code and str(code[0]).upper() in ("COPYUID", "APPENDUID"):
+                # RFC 4315 resp-code-copy / resp-code-apnd: UIDVALIDITY and non-empty uid-set(s)
+                w.count("c07_uidplus_code")
+                need = 4 if str(code[0]).upper() == "COPYUID" else 3
+                args = [str(x) for x in code[1:]]
+                import re as _re
+
+                if len(code) != need or not all(_re.fullmatch(r"[0-9]+(?::[0-9]+)?(?:,[0-9]+(?::[0-9]+)?)*", a) for a in args):
+                    w.violate("C07", "bad_response_code", session=self.sid, code=[str(x) for x in code], cmd=self._curverb(), raw=bytes(parts[0][:120]))
             self._handle(r)
 
     def _salvage(self, parts):
